@@ -258,8 +258,13 @@ Definition u3_block (l : list stmt) : bool := forallb u3_top l.
 
 (* ---------- doctest examples (scan_for_import_issues(parse_docstrings=True), what tidy-imports runs) ----------
    Every doctest example of every docstring of the program is an expression statement made of loads, attribute
-   accesses and operators / calls (no nested scope, no store).  {brace} identifiers are not restricted. *)
-Definition dx_stmt (x : stmt) : bool := match x with SExpr _ e => s1_expr e | _ => false end.
+   accesses and operators / calls, or an assignment of such an expression to names / tuples of names (no nested scope).  {brace} identifiers are not restricted. *)
+Definition dx_stmt (x : stmt) : bool :=
+  match x with
+  | SExpr _ e => s1_expr e
+  | SAssign _ ts v => s1_expr v && forallb s1_target ts      (* `name = expr`, `a, b = expr`: stored in the example's own scope *)
+  | _ => false
+  end.
 Definition dx_doc (d : docstring) : bool := forallb dx_stmt (fst d).
 Definition dx_docs (p : program) : bool := forallb dx_doc (docstrings_of p).
 
